@@ -180,10 +180,11 @@ def efunEvents (pol : Policy) (ex : List CStr) (efun : String) (a b : CStr) : Li
 
 /-! ### compiler: load_object, #include, inherit -/
 
-/-- the include directories of the verification mudlib (harness/mudlib/base.conf.in: `IncludeDir /include`) -/
-def incDirs : List CStr := [str "include"]
+/-- the include search path of the C15 verification mudlib (props/c15.py writes `IncludeDir /include:/`):
+    the entries as `set_inc_list` stores them ("/" is the mudlib directory: ".") -/
+def incDirs : List CStr := [str "/include", str "/"].filterMap incDirOf
 
-/-- is the `legal_path` guard in `inc_open` present (the `fix:` commit of C15)? -/
+/-- are the repairs of `inc_open` / `inc_lexically_normal` present (the `fix:` commits of C15)? -/
 def incGuarded : Bool := true
 
 /-- `load_object (name)`: stat probe, then (if found and legal) the open -/
@@ -191,7 +192,9 @@ def loadEvents (ex : List CStr) (name : CStr) : List Ev × Bool :=
   match loadAccess name (fun p => (lookup ex p).isSome) with
   | none => ([], false)
   | some a =>
-    (.fs "stat" false a.probe :: (match a.opened with
+    ((match a.probe with
+      | none => []
+      | some p => [Ev.fs "stat" false p]) ++ (match a.opened with
       | none => []
       | some p => [.fs "open" false p]), a.opened.isSome)
 
